@@ -288,7 +288,7 @@ func init() {
 	register(ruleZone)
 	addProp(&PropSpec{
 		ID:          "C17",
-		Rules:       []string{"R-ZONE", "R-HARD", "R-CMPMATRIX-DT", "R-PREDLOOP", "R-PAIR-C"},
+		Rules:       []string{"R-ZONE", "R-HARD", "R-CMPMATRIX-DT", "R-PREDLOOP", "R-PAIR-C", "R-CTXZONE"},
 		Explanation: "The time-zone rules as shapes of the 5×5 cast and comparison matrices: each cell is walked with the source type fixed (abstract interpretation); a cell that crosses zone-awareness must be guarded by the WithTZ option, fail with a non-suppressible error otherwise, and compute its result through a call that reaches the context's time zone; cells that do not cross never raise that error; both matrices are exhaustive over the five types.",
 		Decided: []string{"R-ZONE: guard, hard error and context-zone dependence of every crossing cast/compare cell; no tz error in non-crossing cells",
 			"R-HARD: the tz errors are built directly on ErrExecution", "R-CMPMATRIX-DT: comparable iff both time-only or both date-bearing (25 cells)", "R-ZONE also reports a cast or comparison switch that lacks an arm for one of the five types"},
@@ -296,3 +296,110 @@ func init() {
 		Assumptions: []string{"types.TZFromContext is the only way the context's zone is read"},
 	})
 }
+
+// --- R-CTXZONE: conversions interpret wall-clock fields in the context's location ------------------
+
+var ruleCtxZone = &Rule{
+	Name: "R-CTXZONE", NeedSSA: true,
+	Doc: "in every conversion method of the datetime types that takes a context (To*), the location handed to time.Date or Time.In is the result of TZFromContext applied to the method's own context, itself: not a fixed-offset zone or a location derived from another instant (the offset of a named zone depends on the instant, so a zone computed for a different instant applies the wrong rule around DST changes); a zone-less value converted to a zone-aware type consults the context zone this way at least once",
+	Run: func(p *Prog) *RuleOut {
+		out := newOut("R-CTXZONE")
+		var fns []*ssa.Function
+		for fn := range p.AllFns {
+			if fnPkgPath(fn) != pkgTypes || fn.Blocks == nil || fn.Signature.Recv() == nil || !strings.HasPrefix(fn.Name(), "To") || fn.Synthetic != "" {
+				continue
+			}
+			fns = append(fns, fn)
+		}
+		sortFuncs(fns)
+		n := 0
+		for _, fn := range fns {
+			var ctxP *ssa.Parameter
+			for _, q := range fn.Params {
+				if isContextType(q.Type()) {
+					ctxP = q
+				}
+			}
+			if ctxP == nil {
+				continue
+			}
+			isCtxLoc := func(v ssa.Value) bool {
+				c, ok := v.(*ssa.Call)
+				if !ok || c.Call.StaticCallee() == nil || c.Call.StaticCallee().Name() != "TZFromContext" || fnPkgPath(c.Call.StaticCallee()) != pkgTypes {
+					return false
+				}
+				return len(c.Call.Args) == 1 && c.Call.Args[0] == ssa.Value(ctxP)
+			}
+			consults := 0
+			ord := 0
+			for _, b := range fn.Blocks {
+				for _, ins := range b.Instrs {
+					c, ok := ins.(*ssa.Call)
+					if !ok {
+						continue
+					}
+					var loc ssa.Value
+					what := ""
+					switch calleeQualified(&c.Call) {
+					case "time.Date":
+						loc, what = c.Call.Args[len(c.Call.Args)-1], "time.Date"
+					case "time.In":
+						loc, what = c.Call.Args[len(c.Call.Args)-1], "Time.In"
+					default:
+						continue
+					}
+					n++
+					ord++
+					key := fmt.Sprintf("%s: location of %s #%d", fnName(fn), what, ord)
+					if isCtxLoc(loc) {
+						consults++
+						out.ok(key, p.pos(c.Pos()), fnName(fn), "TZFromContext(ctx) itself")
+					} else {
+						out.viol(key, p.pos(c.Pos()), fnName(fn), "the wall-clock fields are interpreted in a location that is not the context's zone itself ("+trunc(loc.String(), 60)+"): around daylight-saving changes the offset of a different instant is applied")
+					}
+				}
+			}
+			// zone-less receiver → zone-aware result must consult the context zone
+			recv := namedOf(fn.Signature.Recv().Type())
+			res := fn.Signature.Results()
+			if recv != nil && res.Len() == 1 {
+				rn := namedOf(res.At(0).Type())
+				if rn != nil && strings.HasSuffix(rn.Obj().Name(), "TZ") && !strings.HasSuffix(recv.Obj().Name(), "TZ") {
+					key := fnName(fn) + " consults the context zone"
+					delegates := false
+					for _, c := range p.allCalls(fn) {
+						if sc := c.Call.StaticCallee(); sc != nil && fnPkgPath(sc) == pkgTypes && strings.HasPrefix(sc.Name(), "To") {
+							for _, a := range c.Call.Args {
+								if a == ssa.Value(ctxP) {
+									delegates = true
+								}
+							}
+						}
+					}
+					if consults > 0 || delegates {
+						out.ok(key, p.pos(fn.Pos()), fnName(fn), "the zone-less value is placed in TZFromContext(ctx)")
+					} else {
+						out.viol(key, p.pos(fn.Pos()), fnName(fn), "a zone-less value becomes zone-aware without the context zone being consulted")
+					}
+				}
+			}
+		}
+		out.Counts["zone_consulting_calls"] = n
+		out.Floors["zone_consulting_calls"] = 6
+		return out
+	},
+}
+
+func (p *Prog) allCalls(fn *ssa.Function) []*ssa.Call {
+	var out []*ssa.Call
+	for _, b := range fn.Blocks {
+		for _, ins := range b.Instrs {
+			if c, ok := ins.(*ssa.Call); ok {
+				out = append(out, c)
+			}
+		}
+	}
+	return out
+}
+
+func init() { register(ruleCtxZone) }
